@@ -82,6 +82,7 @@ inductive Err
   | shortRead         -- Restore: stream ends early
   | noDatabase        -- Restore: header is not Full
   | trailingData      -- Restore: bytes after the last artifact
+  | transport         -- the (de)compressing transport reader failed
 deriving DecidableEq, Repr
 
 /-! ### FullSink -/
@@ -111,7 +112,7 @@ def fullWrite : FileHdr → Bytes → List FileHdr → List Bytes → Bytes → 
 def fullWriteSt (s : FullSt) (p : Bytes) : Except Err FullSt :=
   match s with
   | .writing h cur todo done => fullWrite h cur todo done p
-  | .finished done => if p = [] then .ok (.finished done) else .error .unexpectedData
+  | .finished _ => .error .unexpectedData   -- `if s.phase == installPhaseDone { return 0, ErrUnexpectedData }`, even for an empty p
 
 /-- `FullSink.Close`'s "allow finalization if we're exactly at boundary": ONE advance -/
 def fullFinalize : FullSt → Option (List Bytes)
@@ -238,6 +239,54 @@ def restore (E : Ext) (s : Bytes) : RestoreRes :=
               | .error e => .err e
               | .ok (ws, r) => if r ≠ [] then .err .trailingData else .ok (body.take dbh.size) ws
 
+/-! ### transport compression (store/transport.go, internal/rarchive/zstd)
+
+Sender (`NodeTransport.InstallSnapshot` with compression): wire = 8-byte big-endian
+`args.Size` ‖ zstd(payload). Receiver: raft hands rqlite `io.LimitReader(conn, req.Size)`
+(net_transport.go) — at most `req.Size` bytes OF THE WIRE — which `Consumer` wraps in the
+`Decompressor`: read the 8-byte size `n`, decode, and return at most `n` decoded bytes
+(`io.LimitReader(dec, n)`: whatever the decoder would produce or report after `n` bytes is never
+looked at). raft then requires the number of bytes copied into the sink to equal `req.Size`.
+The zstd codec itself is the parameter `Zstd` (a streaming decoder: bytes produced before it
+stops, and whether it stopped at a clean end of frame). -/
+
+structure Zstd where
+  comp : Bytes → Bytes
+  dec  : Bytes → Bytes × Bool
+
+def be64 : Bytes → Nat
+  | a :: b :: c :: d :: rest => (a.toNat * 16777216 + b.toNat * 65536 + c.toNat * 256 + d.toNat) * 4294967296 + be32 rest
+  | _ => 0
+
+def enc64 (n : Nat) : Bytes := enc32 (n / 4294967296 % 4294967296) ++ enc32 (n % 4294967296)
+
+def sendWire (Z : Zstd) (size : Nat) (payload : Bytes) : Bytes := enc64 size ++ Z.comp payload
+
+structure Recv where
+  delivered : Bytes
+  err       : Bool
+deriving DecidableEq, Repr
+
+/-- what `io.Copy(sink, rpc.Reader)` sees on the receiving node -/
+def recvWire (Z : Zstd) (raftSize : Nat) (wire : Bytes) : Recv :=
+  let raw := wire.take raftSize
+  if raw = [] then ⟨[], false⟩            -- io.ReadFull → io.EOF → a clean, empty stream
+  else if raw.length < 8 then ⟨[], true⟩  -- io.ErrUnexpectedEOF
+  else
+    let n := be64 raw
+    let r := Z.dec (raw.drop 8)
+    if 9223372036854775808 ≤ n then ⟨[], false⟩   -- int64(n) < 0: io.LimitReader with N ≤ 0 is at EOF at once
+    else if n ≤ r.1.length then ⟨r.1.take n, false⟩
+    else ⟨r.1, !r.2⟩
+
+/-- raft's `installSnapshot` on top of it: copy error → Cancel; byte count ≠ `req.Size` →
+Cancel ("short read"); otherwise the sink decides -/
+def installVia (E : Ext) (Z : Zstd) (dueFull : Bool) (raftSize : Nat) (wire : Bytes) : Outcome :=
+  let r := recvWire Z raftSize wire
+  if r.err then .writeErr .transport
+  else if r.delivered.length ≠ raftSize then .closeErr .shortRead
+  else install E dueFull [r.delivered]
+
 /-! ### concrete externals for the driver -/
 
 def crcStep (c : UInt32) : UInt32 := if c &&& 1 = 1 then (c >>> 1) ^^^ 0x82F63B78 else c >>> 1
@@ -262,7 +311,9 @@ def validWalC (b : Bytes) : Bool :=
    dash (no DbHeader), WALS = comma separated `size:crc` or a dash (none)
 `sink <dueFull 0|1>` → ok;  `write <hex>` → ok | err-…;  `close` → outcome
 `restore <hex>` → `ok <dbhex> <walhex,…|->` | err-…
-`crc <hex>` → decimal CRC-32C -/
+`crc <hex>` → decimal CRC-32C
+`recv <raftSize> <wirehex> <decoder output hex> <clean 0|1>` → `ok|err <deliveredhex>` (the harness says what
+   the real zstd decoder yields on the bytes after the 8-byte size; the model applies the size / limit logic) -/
 
 structure DState where
   table : List (Bytes × Option SnapHeader) := []
@@ -310,6 +361,7 @@ def errStr : Err → String
   | .shortRead => "err-short-read"
   | .noDatabase => "err-no-database"
   | .trailingData => "err-trailing-data"
+  | .transport => "err-transport"
 
 def walsStr (ws : List Bytes) : String :=
   if ws = [] then "-" else ",".intercalate (ws.map hexOfBytes)
@@ -348,6 +400,12 @@ def step (s : DState) (line : String) : DState × String :=
         | .err e => errStr e
         | .ok db wals => s!"ok {hexOfBytes db} {walsStr wals}")
     | none => (s, "bad-op")
+  | ["recv", rs, w, out, clean] =>
+    match rs.toNat?, tokBytes w, tokBytes out, (if clean == "1" then some true else if clean == "0" then some false else none) with
+    | some rs, some w, some out, some clean =>
+      let r := recvWire ⟨fun x => x, fun _ => (out, clean)⟩ rs w
+      (s, (if r.err then "err " else "ok ") ++ hexOfBytes r.delivered)
+    | _, _, _, _ => (s, "bad-op")
   | ["crc", b] =>
     match tokBytes b with
     | some b => (s, toString (crc32c b))
